@@ -42,7 +42,8 @@ class Unenumerable(HarnessError):
 
 
 class SolveRecord(object):
-    __slots__ = ('index', 'status', 'nF', 'nO', 'F', 'O', 'opt', 'pairs', 'chosen', 'objective')
+    __slots__ = ('index', 'status', 'nF', 'nO', 'F', 'O', 'opt', 'pairs', 'chosen', 'objective',
+                 'solver_time_limit')
 
     def matchings(self, which, n1):
         """Project the recorded pair vectors to matchings.  Returns a list of
@@ -281,6 +282,8 @@ class Backend(object):
     def _solve(self, solver_self, lp, **kwargs):
         rec = SolveRecord()
         rec.index = len(self.records)
+        # the limit the solver object handed to LpProblem.solve() really carries
+        rec.solver_time_limit = getattr(solver_self, 'timeLimit', None)
         rec.F = rec.O = rec.pairs = None
         rec.nF = rec.nO = None
         rec.opt = None
